@@ -243,6 +243,38 @@ def _chunk(seed, lo, hi, extra):
                         fail("C06/default-unique-attribute-lost-after-earlier-call", script=repr(after)[:400])
                 except Exception as e:  # noqa
                     fail(f"C06/options-history-raises/{real.exc_sig(e)}")
+                # (d'') one Patcher across namespaced pairs that bind one prefix to different URIs: an earlier document (or an
+                # earlier InsertNamespace) binds the prefix to one URI, the observed script binds it to another
+                rq = core.rng_for(seed, "U12nspatch", idx)
+                pre = rq.choice(["p", "q", "nsx"])
+                u1, u2 = "urn:verif:one", "urn:verif:two"
+                if rq.random() < 0.5:
+                    phl = '<r xmlns:%s="%s"><%s:a>t</%s:a></r>' % (pre, u1, pre, pre)
+                    phr = '<r xmlns:%s="%s"><%s:a>u</%s:a></r>' % (pre, u1, pre, pre)
+                else:
+                    phl = "<r><a>t</a></r>"
+                    phr = '<r xmlns:%s="%s"><a>t</a><%s:b>u</%s:b></r>' % (pre, u1, pre, pre)
+                pol = '<root xmlns:k="%s"><k:x>one</k:x></root>' % u1
+                por = '<root xmlns:k="%s" xmlns:%s="%s"><k:x>one</k:x><%s:x>two</%s:x></root>' % (u1, pre, u2, pre, pre)
+                try:
+                    from lxml import etree as _et
+
+                    # the history script is computed first: lxml's prefix registry is process-global, and which prefix a new
+                    # element is serialised with depends on it; the comparison is on the namespace-aware tree (Clark names)
+                    hscr = main.diff_trees(_et.fromstring(phl), _et.fromstring(phr))
+                    oscr = main.diff_trees(_et.fromstring(pol), _et.fromstring(por))
+                    want_t = xt.canon_tree(xt.from_lxml(main.patch_tree(oscr, _et.fromstring(pol))))
+                    pp = patch.Patcher()
+                    try:
+                        pp.patch(hscr, _et.fromstring(phl))
+                    except Exception:  # noqa
+                        pass
+                    got_e = pp.patch(oscr, _et.fromstring(pol))
+                    if xt.canon_tree(xt.from_lxml(got_e)) != want_t:
+                        fail("C06/patcher-with-history-differs/prefix-rebound", history_left=phl, history_right=phr, observed_left=pol,
+                             observed_right=por, used=ser(got_e)[:300])
+                except Exception as e:  # noqa
+                    fail(f"C06/patcher-namespace-history-raises/{real.exc_sig(e)}", history_left=phl, history_right=phr)
                 # (d') one XMLFormatter across namespaced pairs: an earlier script with InsertNamespace (the right root binds
                 # a prefix the left one lacks), then a pair that uses that URI only below the root
                 rr = core.rng_for(seed, "U12nsfmt", idx)
